@@ -172,6 +172,42 @@ ImplClosest(t, c, rc, skip, filt, incl, selfPub) ==
 ClosestN(t, n, E) == SubSeq(ByDistance(t, E), 1, KMin(KMax(n, 0), Cardinality(E)))
 
 (***************************************************************************)
+(* C23 while the connected set changes during the call (spec/kad/KadWalk   *)
+(* models the call as a walk of several steps).  The statement speaks of   *)
+(* "the connected peers"; for a call that overlaps connections and         *)
+(* disconnections every linearisation of the call and of those events is   *)
+(* legal, and so is a walk that reads bin after bin.  Whatever it chose:   *)
+(*   Ethr  eligible peers connected THROUGHOUT the call,                   *)
+(*   Eany  eligible peers connected at some point during it;               *)
+(* the answer is a peer of Eany that is at least as near as the nearest    *)
+(* peer of Ethr.  With Ethr = Eany this is ClosestOK (design lemma         *)
+(* ConcLemmas).                                                            *)
+(***************************************************************************)
+ConcClosestOK(res, peer, t, Ethr, Eany, selfMust, selfMay) ==
+  \/ /\ res = "peer" /\ peer \in Eany
+     /\ (Ethr # {} => ~Closer(t, Nearest(t, Ethr), peer))
+     /\ ~(selfMust /\ Closer(t, SelfAddr, peer))
+  \/ /\ res = "wantself" /\ selfMay
+     /\ (Ethr # {} => Closer(t, SelfAddr, Nearest(t, Ethr)))
+  \/ /\ res = "notfound" /\ Ethr = {}
+
+\* several closest peers: distinct, and "non-decreasing distance" wherever every
+\* linearisation demands it: a listed peer that was connected throughout is
+\* farther than every peer listed before it
+ConcOrderOK(ps, t, Ethr) ==
+  \A i, j \in DOMAIN ps : i < j => ps[i] # ps[j] /\ (ps[j] \in Ethr => Closer(t, ps[i], ps[j]))
+
+\* ... each listed peer is at least as near as the nearest peer connected
+\* throughout that is not listed before it, and the list is not shorter than what
+\* the peers connected throughout alone would give
+ConcClosestNOK(ps, t, n, Ethr, Eany) ==
+  /\ Len(ps) <= KMax(n, 0)
+  /\ Len(ps) >= KMin(KMax(n, 0), Cardinality(Ethr))
+  /\ \A i \in DOMAIN ps :
+        LET R == Ethr \ {ps[j] : j \in 1..(i - 1)}
+        IN ps[i] \in Eany /\ (R # {} => ~Closer(t, Nearest(t, R), ps[i]))
+
+(***************************************************************************)
 (* State and actions.                                                      *)
 (***************************************************************************)
 VARIABLES conn,      \* connected full nodes
